@@ -621,11 +621,26 @@ def options_correspondence(rep, rng, tier):
         rep.count("options-history")
     model = core.run_driver(lines)
     nd, first = 0, None
+
+    def _num(sv):
+        # 0 and 0.0 are one value: an option set to a value equal to the one it holds may keep either object
+        try:
+            import ast
+            x_ = ast.literal_eval(sv)
+            if isinstance(x_, (int, float)) and not isinstance(x_, bool):
+                return repr(float(x_))
+        except Exception:
+            pass
+        return sv
+
+    def _canon(entry):
+        return entry if entry == "KeyError" else {"method": entry["method"], "vals": sorted([k_, _num(v_)] for k_, v_ in entry["vals"])}
     for (outs, ops, m0), m in zip(reals, model):
         rep.evaluations += 1
+        outs = [_canon(x) for x in outs]
         got = []
         for x in (m if isinstance(m, list) else []):
-            got.append(x if x == "KeyError" else {"method": x["method"], "vals": sorted(x["vals"])})
+            got.append(_canon(x))
         if got != outs:
             nd += 1
             if first is None:
